@@ -750,6 +750,19 @@ static bool ts_parser__has_included_range_difference(
   );
 }
 
+// The end of the text that was examined while lexing the given node. A node
+// whose lookahead reached the end of the old document was lexed against
+// end-of-input, so text that a later included range adds may extend it.
+static uint32_t ts_parser__lookahead_end_byte(
+  const TSParser *self,
+  Subtree tree,
+  uint32_t end_byte_offset
+) {
+  uint32_t lookahead_end_byte = end_byte_offset + ts_subtree_lookahead_bytes(tree);
+  if (lookahead_end_byte >= ts_subtree_total_bytes(self->old_tree)) return UINT32_MAX;
+  return lookahead_end_byte;
+}
+
 static Subtree ts_parser__reuse_node(
   TSParser *self,
   StackVersion version,
@@ -800,7 +813,7 @@ static Subtree ts_parser__reuse_node(
                  byte_offset,
                  ts_subtree_is_eof(result)
                    ? end_byte_offset
-                   : end_byte_offset + ts_subtree_lookahead_bytes(result)
+                   : ts_parser__lookahead_end_byte(self, result, end_byte_offset)
                )) {
       reason = "contains_different_included_range";
     }
